@@ -187,13 +187,15 @@ def run(ctx: Ctx) -> None:
     handled = tables.handled_tags_chain(repo, tm, repo.anchor(TR, "run_circuit"))
     tables.rule_vocab(ctx, "vocab.gates", [(STABF, "inverse_circuit")], "run_circuit", handled)
     tableau.rule_rowops(ctx)
-    from ..rules import effects
+    from ..rules import effects, loops
+    loops.rule_pivot_choice(ctx, STABF)
     effects.rule_consumed_tableau(ctx, [RC, STABF, "graphiq/backends/stabilizer/functions/metric.py"])
     ctx.floor("reverse.table", 18)
     ctx.floor("emit.mirror", 6)
 
 
 KNOCKOUTS = [
+    Knockout("pivot-first-z", STABF, sub_once("tab_row_swap(tableau, pivot[0], z_list[-1])", "tab_row_swap(tableau, pivot[0], z_list[0])"), "pivot.choice", "Z-only pivot"),
     Knockout("consumed-input", RC, sub_once("    _, circuit = inverse_circuit(stabilizer_tableau.copy())", "    _, circuit = inverse_circuit(stabilizer_tableau)"),
              "effect.consumed-tableau", "clifford_from_stabilizer", on_fixed_only=True),
     Knockout("reverse-P", TR, sub_once("            if reverse:\n                tableau = phase_dagger_gate(tableau, ops[1])\n            else:\n                tableau = phase_gate(tableau, ops[1])",
